@@ -334,6 +334,10 @@ def _cmp(darr, np_, p, a, ref, probs):
         if h.shape != ref.shape or h.dtype != ref.dtype:
             probs.append(f'{nm} handle shape/dtype {h.shape} {h.dtype} vs {ref.shape} {ref.dtype}')
     js = json.load(open(p + '/arraydescription.json'))
+    missing = [k for k in ('numtype', 'byteorder', 'shape', 'arrayorder', 'darrversion', 'darrobject') if k not in js]
+    if missing:
+        probs.append(f'arraydescription.json lacks {missing}')
+        return
     dt = np_.dtype(js['numtype']).newbyteorder('<' if js['byteorder'] == 'little' else '>')
     raw = np_.fromfile(p + '/arrayvalues.bin', dtype=dt)
     if js['arrayorder'] not in ('C', 'F') or raw.size != ref.size or \
